@@ -41,6 +41,8 @@ STORE_ASSUMPTIONS = COMMON_D_ASSUMPTIONS + [
     "same node identity after restart => same encryption seed (driver.rs derives it from the keypair; not re-verified)",
 ]
 
+C13_K_STUBS = ["rmp_serde::to_vec -> fixed-width field-by-field encoder driven by the real serde::Serialize impl of QuotingMetrics (msgpack itself is trusted to be injective and self-delimiting)"]
+
 PROPS = {
     "C01": {
         "parts": [
@@ -228,10 +230,19 @@ PROPS = {
                 {"name": "c13_proof", "covers": ["verifies", "fails"], "quick": {"max_paths": 1000, "timeout": 600}},
                 {"name": "c13_historical", "covers": ["inconsistent", "consistent", "both_in_the_past", "dated_ahead_of_the_verifier_clock"], "quick": {"max_paths": 1000, "timeout": 600}},
             ]},
+            {"engine": "K", "crate": "k_evm", "harnesses": [
+                kh(f"c13_signed_bytes_bind_{f}", f"PaymentQuote::bytes_for_signing: two field sets that differ only in {what} give different signed bytes", "all values of every signed field (timestamp < 2^40 s); network_size present", C13_K_STUBS, quick=900, thorough=2400, only=only)
+                for f, what, only in [("timestamp_seconds", "the timestamp (whole seconds)", None), ("rewards_address", "the rewards address", None),
+                                      ("content", "the content address", "thorough"), ("close_records_stored", "close_records_stored", "thorough"), ("max_records", "max_records", "thorough"),
+                                      ("received_payment_count", "received_payment_count", "thorough"), ("live_time", "live_time", "thorough"), ("network_size", "the value of network_size", "thorough")]
+            ] + [
+                kh("c13_signed_bytes_bind_presence_of_network_size", "bytes_for_signing: network_size present vs absent give different signed bytes", "all values of every signed field", C13_K_STUBS, quick=900, thorough=2400),
+                kh("c13_signed_bytes_without_network_size_bind_live_time", "bytes_for_signing without network_size: differing live_time gives different signed bytes", "all values; network_size absent", C13_K_STUBS, quick=900, thorough=2400, only="thorough"),
+            ]},
         ],
-        "assumptions": NODE_ASSUMPTIONS[:3] + ["real rmp_serde encodes the (concrete) quoting metrics inside bytes_for_signing; single-field alterations are one representative altered value per field, except the timestamp, which is any different symbolic instant"],
-        "bounds": {"quick": "one quote; timestamp and clock fully symbolic (64-bit seconds); 9 single-field alterations incl. key and claimed identity; proofs of 1..2 quotes with each quote genuine / forged / signed by another node; historical_verify with symbolic timestamps in both argument orders"},
-        "outside": ["ed25519/RSA and protobuf key decoding (ideal scheme)", "sub-second timestamp differences (the code signs whole seconds)", "byte-level injectivity of the signed encoding for all field values (msgpack is trusted to be injective)"],
+        "assumptions": NODE_ASSUMPTIONS[:3] + ["engine D: real rmp_serde encodes the (concrete) quoting metrics inside bytes_for_signing; single-field alterations are one representative altered value per field, except the timestamp, which is any different symbolic instant"] + K_ASSUMPTIONS + C13_K_STUBS,
+        "bounds": {"quick": "one quote; timestamp and clock fully symbolic (64-bit seconds); 9 single-field alterations incl. key and claimed identity; proofs of 1..2 quotes with each quote genuine / forged / signed by another node; historical_verify with symbolic timestamps in both argument orders; Kani: bytes_for_signing on two fully symbolic field sets differing in one field (quick: timestamp, rewards address, presence of network_size; thorough: every signed field)"},
+        "outside": ["ed25519/RSA and protobuf key decoding (ideal scheme)", "sub-second timestamp differences (the code signs whole seconds)", "injectivity of msgpack itself (the K harnesses replace rmp_serde::to_vec by a fixed-width encoder driven by the real Serialize impl)", "timestamps >= 2^40 s in the K harnesses"],
     },
     "C15": {
         "parts": [
